@@ -352,6 +352,68 @@ def ts_validator_rule(rep, u, fname="mpeg2_ts_pkt_is_valid"):
     return n
 
 
+def serializer_capacity_rule(rep, u, suffix_gen="_serialize_data", suffix_calc="_serialize_calc_size"):
+    """A generator that writes a *computed number* of fixed-size packets into (buf, buf_size) cannot test the capacity
+    packet by packet against a single-packet bound: its size calculator is consulted, the answer compared with buf_size on
+    an edge that leaves with an error, and that comparison dominates the first store through the buffer.
+    (Found by the interpreter as a 4-byte miss: `buf_size >= one packet` was the only test, the adaptation field can push
+    the payload into a second packet.)"""
+    n = 0
+    for fn in u.function_list:
+        if not fn.has_cfg or not fn.name.endswith(suffix_gen):
+            continue
+        calc = u.fn(fn.name[:-len(suffix_gen)] + suffix_calc)
+        if calc is None:
+            continue
+        pn = {p["n"] for p in fn.params}
+        if not {"buf", "buf_size"} <= pn:
+            continue
+        n += 1
+        rep.functions.add(fn.name)
+        # first store through a pointer derived from buf
+        derived = {"buf"}
+        changed = True
+        while changed:
+            changed = False
+            for pos, root, x, ps in fn.nodes():
+                if x.get("k") == "bin" and x["op"] == "=" and core.strip_casts(x["x"]).get("k") == "ref":
+                    if any(r["n"] in derived for r in core.refs(x["y"])) and core.strip_casts(x["x"])["n"] not in derived and \
+                            u.type(core.strip_casts(x["x"])["t"])["k"] == "ptr":
+                        derived.add(core.strip_casts(x["x"])["n"])
+                        changed = True
+        stores = []
+        for pos, root, x, ps in fn.nodes():
+            if x.get("k") == "bin" and x["op"] in ("=", "|=", "&=") and core.strip_casts(x["x"]).get("k") in ("mem", "sub", "un"):
+                b0 = core.base_ref(x["x"])
+                if b0 is not None and b0["n"] in derived and core.strip_casts(x["x"]).get("k") != "ref":
+                    stores.append(pos)
+        for pos, root, c, ps in fn.calls({"memcpy", "memset", "memmove"}):
+            b0 = core.base_ref(c["args"][0])
+            if b0 is not None and b0["n"] in derived:
+                stores.append(pos)
+        calls = [(pos, c) for pos, root, c, ps in fn.calls({calc.name})]
+        ok = False
+        why = "the size calculator %s is never called" % calc.name
+        for cpos, c in calls:
+            outs = [core.strip_casts(a["e"])["n"] for a in (core.strip_casts(a_) for a_ in c["args"]) if a.get("k") == "un" and a["op"] == "&" and
+                    core.strip_casts(a["e"]).get("k") == "ref"]
+            why = "its answer is not compared with buf_size before the first store"
+            for bid in fn.reachable_blocks():
+                cnd = fn.blocks[bid].cond
+                if cnd is None:
+                    continue
+                names = {r["n"] for r in core.refs(cnd)}
+                if "buf_size" in names and names & set(outs) and fn.pos_dominates(cpos, (bid, 0)) and stores and \
+                        all(fn.dominates(bid, sp[0]) and bid != sp[0] for sp in stores) and \
+                        any(const_val(r.get("e")) not in (None, 0) and fn.dominates(bid, rp[0]) for rp, r in fn.returns()):
+                    ok = True
+        desc = "%s: the capacity for ALL packets (from %s) is tested against buf_size before the first store" % (fn.name, calc.name)
+        (rep.proved if ok else rep.violated)("R-CAPALL", fn, "calc-before-generate", desc, "%d stores behind the test" % len(stores) if ok else
+                                             "%s: the only size test admits one packet; with an adaptation field that fills the first packet "
+                                             "(af_size = 184, 10 data bytes, buf_size = 188) the second packet is written behind the buffer" % why)
+    return n
+
+
 def run(rep, tier):
     us = driver.load_units(specs())
     rep.use_units(us)
@@ -370,6 +432,7 @@ def run(rep, tier):
     rep.floor("validator header reads", sum(validator_guard_rule(rep, u, lab) for lab, u in us.items()), 12)
     rep.floor("label-sequence helper cases", label_helpers_rule(rep, us["proto/dns.h"]), 3000)
     rep.floor("TS validator cases", ts_validator_rule(rep, us["proto/mpeg2ts.h"]), 200)
+    rep.floor("multi-packet generators", serializer_capacity_rule(rep, us["proto/mpeg2ts.h"]), 1)
     # request line: the components returned are sub-spans of the target (rule lives in C20)
     from props import c20
     rep.floor("target component searches", c20.span_rule(rep, us["src/proto/http.c"]), 2)
